@@ -88,12 +88,21 @@ def _check_unknown_mode(ck, ctx):
     m = ctx.model
     dc = ctx._get("dcmodel", lambda: DCModel(m))
     valid = sorted(dc.dialect_by_name)
-    for mode in ("no_such_mode", "SQL", "", "postgresql"):
+    import copy
+    table = {"table_name": "t", "schema": None, "primary_key": None, "index": [], "partitioned_by": [], "tablespace": None, "checks": [],
+             "columns": [{"name": "a", "type": "int", "size": None, "references": None, "unique": False, "primary_key": False, "nullable": True,
+                          "default": None, "check": None}]}
+    # whatever the script yields: nothing, entities that are not tables, a table (the mode is validated, not merely looked up where a
+    # table happens to need its dialect class)
+    scripts = {"nothing parsed": [], "a sequence only": [{"schema": None, "sequence_name": "sq", "increment": 1}],
+               "a type and a schema": [{"schema": None, "type_name": "ty", "base_type": "ENUM", "properties": {"values": ["'a'"]}}, {"schema_name": "sc"}],
+               "a table": [table]}
+    for mode, script in [(mo, sc) for mo in ("no_such_mode", "SQL", "", "postgresql") for sc in scripts]:
         if mode in valid:
             continue
         detail = ""
         try:
-            res, _d = run_tail(ctx, [], output_mode=mode)
+            res, _d = run_tail(ctx, copy.deepcopy(scripts[script]), output_mode=mode)
             ok, detail = False, f"returns {res!r:.100}"
         except Raised as r:
             rs = m.resolve_symbol(r.module, r.cls_name) if r.module is not None else None
@@ -112,7 +121,7 @@ def _check_unknown_mode(ck, ctx):
             ok, detail = False, f"raises {type(pr.exc).__name__}: {pr.exc}"
         except (LexUnknown, NonUniform, ShapeMismatch) as e:
             raise AnalysisError(f"Parser.run outside the interpreted subset (output_mode={mode!r}): {e}")
-        ck.ob("T-MODE-CHECK", f"run(output_mode={mode!r}) raises SimpleDDLParserException naming the valid modes", ok,
+        ck.ob("T-MODE-CHECK", f"run(output_mode={mode!r}) raises SimpleDDLParserException naming the valid modes (script yields: {script})", ok,
               "an unknown output_mode raises SimpleDDLParserException naming the valid modes" + ("" if ok else "; " + detail), "Parser.run (evaluated abstractly)")
     bad = []
     for mode in valid:
